@@ -90,19 +90,20 @@ def main(argv=None):
         small["expect"] = {"oracle": key[0], "site": key[1], "digest": sim.log_digest(), "detail": vv[0]["detail"] if vv else None}
         path = os.path.join(runner.REPLAY_DIR, f"{pid}-{seed}-{_slug(key)}.json")
         with open(path, "w") as f:
-            json.dump(small, f, indent=1, sort_keys=True)
+            json.dump(small, f, indent=1)  # key order is part of the scenario (dict iteration order feeds construction order)
         code, out = runner.fresh_replay(path)
         if code == 1:
             print(f"VIOLATION property={pid} replay={path}")
             print(f"  oracle={key[0]} site={key[1]} seed={seed} runs_hit={len(items)} detail={json.dumps(small['expect']['detail'])[:600]}")
             n_viol += 1
-            rc = max(rc, 1) if rc != 2 else 2
         else:
             print(f"HARNESS-ERROR property={pid} replay of {path} did not reproduce in a fresh interpreter (code {code})\n{out[-800:]}")
             rc = 2
     if len(unknown) > 4:
         for key in sorted(unknown)[4:]:
             print(f"  (further unlisted violation class not minimised: oracle={key[0]} site={key[1]} runs_hit={len(unknown[key])})")
+    if n_viol:
+        rc = 1  # a violation reproduced from its replay file in a fresh interpreter stands, whatever else went wrong
     wall_s = time.time() - t0
     if not args.no_evidence:
         from .evidence import write_evidence
